@@ -243,7 +243,7 @@ pub fn render_type(td: &TypeDef, m: &Module) -> String {
     // a parameter only a skipped marker mentions gets no inferred bound: spell the bounds out
     // (`bound` replaces the inferred ones, so every type parameter is listed)
     if td.params.iter().any(|p| p.ts_bound) {
-        ts.push(format!("bound = {}", lit(&td.params.iter().filter(|p| p.concrete.is_none()).map(|p| format!("{}: ts_rs::TS", p.name)).collect::<Vec<_>>().join(", "))));
+        ts.push(format!("bound = {}", lit(&td.params.iter().map(|p| format!("{}: ts_rs::TS", p.name)).collect::<Vec<_>>().join(", "))));
     }
     // two concretised parameters: in one list, or split over two attributes (by identifier length)
     let split_concrete = concrete.len() >= 2 && td.ident.len() % 3 != 0;
